@@ -250,27 +250,20 @@ theorem minStrLoop_spec (xs : List Value) (mn : String) :
     cases x <;> simp [minStrLoop, Spec.allStrs, ih]
     case str d => cases Spec.allStrs xs <;> simp
 
-/-- no item is null -/
-def NoNull (xs : List Value) : Prop := ∀ v ∈ xs, v ≠ .null
-
-theorem maxNumLoop_spec (xs : List Value) (h : NoNull xs) (mx : Dec) :
+theorem maxNumLoop_spec (xs : List Value) (mx : Dec) :
     maxNumLoop xs mx = (Spec.allNums xs).map (fun ds => ds.foldl (fun a b => if Dec.cmp b a == .gt then b else a) mx) := by
   induction xs generalizing mx with
   | nil => rfl
   | cons x xs ih =>
-    have ih := ih (fun v hv => h v (List.mem_cons_of_mem _ hv))
-    have hx := h x (by simp)
-    cases x <;> simp [maxNumLoop, Spec.allNums, ih] at hx ⊢
+    cases x <;> simp [maxNumLoop, Spec.allNums, ih]
     case num d => cases Spec.allNums xs <;> simp
 
-theorem maxStrLoop_spec (xs : List Value) (h : NoNull xs) (mx : String) :
+theorem maxStrLoop_spec (xs : List Value) (mx : String) :
     maxStrLoop xs mx = (Spec.allStrs xs).map (fun ds => ds.foldl (fun a b => if compare b a == .gt then b else a) mx) := by
   induction xs generalizing mx with
   | nil => rfl
   | cons x xs ih =>
-    have ih := ih (fun v hv => h v (List.mem_cons_of_mem _ hv))
-    have hx := h x (by simp)
-    cases x <;> simp [maxStrLoop, Spec.allStrs, ih] at hx ⊢
+    cases x <;> simp [maxStrLoop, Spec.allStrs, ih]
     case str d => cases Spec.allStrs xs <;> simp
 
 theorem insertBy_length {α : Type} (cmp : α → α → Ordering) (x : α) (xs : List α) :
